@@ -321,6 +321,9 @@ def run(ctx):
     ctx.notes["build_order_histories"] = len(late_cases)
     samples = {}
     calls = validate_cases(ctx, cases, samples, sample_ids=(0, enumerated - 1))
+    # the order the numbers are given in: comparison laws and insertion-order independence on real features (spec/Order.tla)
+    from .. import order  # pylint: disable=import-outside-toplevel
+    calls += order.stage(ctx, rng, 2 * 10 ** 8)
     ctx.evaluations = calls
     for ident in sorted(samples):
         ctx.sample(samples[ident], limit=4)
@@ -330,7 +333,9 @@ def run(ctx):
                 "bridging subregion; line of 12 with nested and identical coordinates; ring of 9 with an origin-spanning gene and a "
                 "whole-record subregion) is replayed on a real Record and its last step validated; plus seeded random universes "
                 "(records of 40-200 bases, 2-5 areas, 1-5 genes) with random call sequences of 4-13 calls, every step validated; "
-                "non-trivial = the record holds at least one region after the call")
+                "non-trivial = the record holds at least one region after the call; plus the location order itself (Order.tla): "
+                "comparison matrices of real areas (all spans of a small ring / line at once) and plain features (random dozens incl. "
+                "spliced and origin-spanning ones) and the lists a real Record keeps for every / sampled insertion orders of 3-4 areas or genes")
     ctx.notes.update({"enumerated_histories": enumerated, "random_histories": len(cases) - enumerated, "validated_calls": calls})
     ctx.assumptions += ["create_candidate_clusters / create_regions are only called when no candidates / regions exist (documented use)",
                         "region invariants are required where regions were just (re)built; adding an area afterwards legitimately "
@@ -338,6 +343,11 @@ def run(ctx):
 
 
 def replay(ctx, record):
+    if record["op"].startswith(("compare_", "insert_")):
+        from .. import order  # pylint: disable=import-outside-toplevel
+        order.replay(ctx, record)
+        ctx.failures = [f for f in ctx.failures if f["clause"] == record["clause"]]
+        return
     case = {"id": 0, "uni": record["input"]["uni"], "hist": record["input"]["hist"], "log_from": len(record["input"]["hist"]) - 1}
     events = observe(case)
     ctx.validate("RecordSM_Trace", events, {0: {"op": record["op"], "input": record["input"]}})
